@@ -14,7 +14,7 @@ EXTRACT = "extract/ExC02.v"
 OBLIGATION = "directory_git_object"
 REQUESTS_NEED_IMPL = True
 THEOREMS = ["C02_order_free", "C02_is_git_tree", "C02_git_order", "C02_mode_octal", "C02_mode_no_leading_zero",
-            "C02_dentry_perms_table", "C02_decode", "C02_manifest_injective", "C02_only_entries", "C02_valid_iff",
+            "C02_decode", "C02_manifest_injective", "C02_only_entries", "C02_valid_iff",
             "C02_satisfiable"]
 RULE = ("entry sets of 0-40 entries; names built as prefix chains over an adversarial alphabet (bytes next to '/', "
         "space, newline, NUL, >=0x80) with file/dir/rev types mixed so that keys collide in sort order; perms: the "
